@@ -4,7 +4,7 @@ CHECK_DEADLOCK FALSE
 INVARIANTS OracleOK
 CONSTANTS
   MaxOps = 3
-  Fams = {"F2", "FM", "multi"}
+  Fams = {"F2", "FM", "multi", "forms"}
   Valuations <- ValT
   MaxList = 3
   SimFam = "FM"
